@@ -42,6 +42,7 @@ struct CaseSpec {
     mode: &'static str, // awaited | pipelined
     big: bool,
     huge: bool, // runs on the server process without parser throttle
+    numeric: bool, // extreme numeric parameters: runs alone on a dedicated server process (which is restarted if it dies)
     steps: Vec<Step>,
 }
 
@@ -49,6 +50,30 @@ const TARGET_VERBS: [&str; 4] = ["stop", "stream_change_window", "stream_binary_
 
 fn j(v: Value) -> String {
     v.to_string()
+}
+
+/// text of a numeric parameter class (RemoteTable.tla NumClasses); len = number of messages of the small file
+fn num_text(class: &str, len: u64) -> String {
+    match class {
+        "0" => "0".into(),
+        "3" => "3".into(),
+        "lenm1" => (len - 1).to_string(),
+        "len" => len.to_string(),
+        "lenp1" => (len + 1).to_string(),
+        "u32max" => "4294967295".into(),
+        "u32maxp1" => "4294967296".into(),
+        "u64k" => "18446744073709552".into(), // u64::MAX / 1000 + 1
+        "u64max" => "18446744073709551615".into(),
+        "p62" => "4611686018427387904".into(),
+        "1e19" => "1e19".into(),
+        "neg" => "-5".into(),
+        "float" => "2.5".into(),
+        c => panic!("numeric class {}", c),
+    }
+}
+fn nwin(arg: &str, len: u64) -> Option<(String, String)> {
+    let p: Vec<&str> = arg.strip_prefix("nwin:")?.split(':').collect();
+    Some((num_text(p[0], len), num_text(p[1], len)))
 }
 
 /// abstract command -> text frame (pure function of its arguments; `tk` is the already concretised first parameter)
@@ -94,6 +119,10 @@ fn concretise(verb: &str, arg: &str, tk: Option<&str>, f: &Files, big: bool) -> 
             "junk" => "now 1 2".to_string(),
             _ => panic!("plain arg {}", arg),
         }),
+        "stream" | "query" if arg.starts_with("nwin:") => {
+            let (a, b) = nwin(arg, f.n_small).unwrap();
+            format!("{} {{\"window\":[{},{}],\"binary\":true,\"filters\":{}}}", verb, a, b, filt)
+        }
         "stream" | "query" => with(verb, match arg {
             "ok" => j(json!({"window":[0,5],"binary":true})),
             "ok_filt" => j(json!({"window":[0,5],"binary":true,"filters":filt})),
@@ -136,6 +165,18 @@ fn concretise(verb: &str, arg: &str, tk: Option<&str>, f: &Files, big: bool) -> 
                 ("stream_search", "maxwrongtype") => j(json!({"max_results":[1]})),
                 ("stream_search", "filterswrongtype") => j(json!({"filters":{"type":0}})),
                 ("stream_search", "badfilter") => j(json!({"filters":[{"type":9}]})),
+                ("stream_change_window", a) if a.starts_with("nwin:") => {
+                    let (x, y) = nwin(a, f.n_small).unwrap();
+                    format!("{},{}", x, y)
+                }
+                ("stream_search", a) if a.starts_with("nstart:") => {
+                    format!("{{\"start_idx\":{},\"max_results\":3,\"filters\":[{{\"type\":0,\"ctid\":\"CTIA\"}}]}}", num_text(&a[7..], f.n_small))
+                }
+                ("stream_search", a) if a.starts_with("nmax:") => {
+                    format!("{{\"start_idx\":1,\"max_results\":{},\"filters\":[{{\"type\":0,\"ctid\":\"CTIA\"}}]}}", num_text(&a[5..], f.n_small))
+                }
+                ("stream_binary_search", a) if a.starts_with("ntime:") => format!("time_ms={}", num_text(&a[6..], f.n_small)),
+                ("stream_binary_search", a) if a.starts_with("nindex:") => format!("index={}", num_text(&a[7..], f.n_small)),
                 _ => panic!("target arg {} {}", verb, arg),
             };
             match tk {
@@ -372,6 +413,14 @@ fn run_case(port: u16, case: usize, cs: &CaseSpec, files: &Files, rng: &mut Rng)
                         let id = sess.last_id + k;
                         ("id", id, Some(id.to_string()))
                     }
+                    t if t.starts_with("n:") => {
+                        // a numeric class as stream id; ids beyond TLC's 32-bit integers are recorded as 2147483647 (never a live id)
+                        let txt = num_text(&t[2..], files.n_small);
+                        match txt.parse::<u32>() {
+                            Ok(v) => ("id", std::cmp::min(v as u64, 2_147_483_647), Some(txt)),
+                            Err(_) => ("nonnum", 0, Some(txt)),
+                        }
+                    }
                     t => panic!("target {}", t),
                 }
             };
@@ -410,6 +459,34 @@ fn run_case(port: u16, case: usize, cs: &CaseSpec, files: &Files, rng: &mut Rng)
 }
 
 // ------------------------------------------------------------------------------------------------ histories
+fn is_numeric_step(s: &Step) -> bool {
+    s.tgt.starts_with("n:") || ["nwin:", "nstart:", "nmax:", "ntime:", "nindex:"].iter().any(|p| s.arg.starts_with(p))
+}
+
+const NUM_CLASSES: [&str; 13] = ["0", "3", "lenm1", "len", "lenp1", "u32max", "u32maxp1", "u64k", "u64max", "p62", "1e19", "neg", "float"];
+
+/// a session whose numeric parameters and ids take the extreme classes (runs alone on the dedicated server)
+fn random_numeric_history(rng: &mut Rng, len: usize) -> Vec<Step> {
+    let mut v = vec![step("open", if rng.chance(1, 4) { "ok_sort" } else { "ok" }, ""), step("stream", "ok_filt", "")];
+    let c = |rng: &mut Rng| *rng.pick(&NUM_CLASSES);
+    for _ in 0..len {
+        let tgt = if rng.chance(1, 6) { format!("n:{}", c(rng)) } else { format!("recent:{}", rng.below(2)) };
+        let s = match rng.below(7) {
+            0 => step(if rng.chance(1, 2) { "stream" } else { "query" }, &format!("nwin:{}:{}", c(rng), c(rng)), ""),
+            1 => step("stream_change_window", &format!("nwin:{}:{}", c(rng), c(rng)), &tgt),
+            2 => step("stream_search", &format!("nstart:{}", c(rng)), &tgt),
+            3 => step("stream_search", &format!("nmax:{}", c(rng)), &tgt),
+            4 => step("stream_binary_search", &format!("ntime:{}", c(rng)), &tgt),
+            5 => step("stream_binary_search", &format!("nindex:{}", c(rng)), &tgt),
+            _ => step("stop", "", &format!("n:{}", c(rng))),
+        };
+        v.push(s);
+    }
+    v.push(step("close", "", ""));
+    v.push(step("open", "ok", ""));
+    v
+}
+
 fn parse_scn(v: &Value) -> Vec<Step> {
     let mut steps: Vec<Step> = v
         .as_array()
@@ -558,7 +635,7 @@ fn random_history(rng: &mut Rng, len: usize, pipelined: bool, multi: bool) -> Ve
 }
 
 fn scripted() -> Vec<CaseSpec> {
-    let mk = |big: bool, mode: &'static str, v: Vec<Step>| CaseSpec { src: "scripted", mode, big, huge: false, steps: v };
+    let mk = |big: bool, mode: &'static str, v: Vec<Step>| CaseSpec { src: "scripted", mode, big, huge: false, numeric: false, steps: v };
     let mut res = vec![
         // the three reproduced connection killers (Appendix C #8, #19, #20)
         mk(false, "awaited", vec![step("open", "ok", ""), step("stream", "ok_filt", ""), step("stream_search", "noarg", "h1"), step("close", "", "")]),
@@ -695,13 +772,15 @@ fn main() {
     }
     if let Some(f) = a.get("--scenarios") {
         for scn in read_ndjson(f) {
-            cases.push(CaseSpec { src: "tlc", mode: "awaited", big: false, huge: false, steps: parse_scn(&scn) });
+            let steps = parse_scn(&scn);
+            let numeric = steps.iter().any(is_numeric_step);
+            cases.push(CaseSpec { src: "tlc", mode: "awaited", big: false, huge: false, numeric, steps });
         }
     }
     if n_huge > 0 && !a.has("--no-scripted") {
         // close must complete although more messages are queued behind the parser than the bounded channels hold
         // (nobody consumes while the session is paused / in one-pass mode), and a new open must succeed afterwards
-        let hs = |v: Vec<Step>| CaseSpec { src: "scripted", mode: "awaited", big: false, huge: true, steps: v };
+        let hs = |v: Vec<Step>| CaseSpec { src: "scripted", mode: "awaited", big: false, huge: true, numeric: false, steps: v };
         let wait_ms = a.str("--huge-wait-ms", "4000");
         cases.push(hs(vec![step("open", "ok_huge", ""), step("pause", "", ""), step("sleep", &wait_ms, ""), step("close", "", ""), step("open", "ok", ""), step("close", "", "")]));
         cases.push(hs(vec![step("open", "ok_huge", ""), step("close", "", ""), step("open", "ok", ""), step("close", "", "")]));
@@ -712,7 +791,11 @@ fn main() {
     for k in 0..n_random {
         let pipelined = k % 2 == 1;
         let len = rng.range(20, long_max as u64) as usize;
-        cases.push(CaseSpec { src: "random", mode: if pipelined { "pipelined" } else { "awaited" }, big: rng.chance(1, 2), huge: false, steps: if k % 5 == 4 { random_onepass_history(&mut rng, std::cmp::min(len, 60)) } else { random_history(&mut rng, len, pipelined, k % 3 == 2) } });
+        cases.push(CaseSpec { src: "random", mode: if pipelined { "pipelined" } else { "awaited" }, big: rng.chance(1, 2), huge: false, numeric: false, steps: if k % 5 == 4 { random_onepass_history(&mut rng, std::cmp::min(len, 60)) } else { random_history(&mut rng, len, pipelined, k % 3 == 2) } });
+    }
+    for _ in 0..a.num("--random-numeric", 0) {
+        let len = rng.range(4, 12) as usize;
+        cases.push(CaseSpec { src: "random", mode: "awaited", big: false, huge: false, numeric: true, steps: random_numeric_history(&mut rng, len) });
     }
     let mut rng_offset = 0usize; // keeps the per-case random choices of a replayed case identical to the original run
     if let Some(only) = a.get("--only-case") {
@@ -727,6 +810,12 @@ fn main() {
     // sessions on the huge log run against a second server process without parser throttle
     let mut server2 = if cases.iter().any(|c| c.huge) { Some(Server::start(&adlt, &work, "c15-unthrottled", None)) } else { None };
     let port2 = server2.as_ref().map(|s| s.port).unwrap_or(port);
+    // sessions with extreme numeric parameters run one at a time on a dedicated server process: if a command kills the
+    // whole process only that session is affected; the process is restarted for the next one
+    let thr: Option<String> = if throttle == "none" { None } else { Some(throttle.clone()) };
+    const NUM_SERVERS: usize = 4; // each serves one session at a time
+    let numsrvs: Arc<Vec<Mutex<Option<(Server, u32)>>>> = Arc::new((0..NUM_SERVERS).map(|_| Mutex::new(None)).collect());
+    let num_panics: Arc<Mutex<Vec<(String, u64)>>> = Arc::new(Mutex::new(Vec::new()));
     let cases = Arc::new(cases);
     let next = Arc::new(AtomicUsize::new(0));
     let results: Arc<Mutex<Vec<(usize, Vec<Value>)>>> = Arc::new(Mutex::new(Vec::new()));
@@ -734,6 +823,7 @@ fn main() {
     let mut threads = Vec::new();
     for w in 0..conns {
         let (cases, next, results, files) = (cases.clone(), next.clone(), results.clone(), files.clone());
+        let (numsrvs, num_panics, adlt, work, thr) = (numsrvs.clone(), num_panics.clone(), adlt.clone(), work.clone(), thr.clone());
         threads.push(std::thread::spawn(move || loop {
             let k = next.fetch_add(1, Ordering::SeqCst);
             if k >= cases.len() {
@@ -741,7 +831,33 @@ fn main() {
             }
             let _ = w;
             let mut rng = Rng::new(seed ^ (((k + rng_offset) as u64) << 20)); // per case, independent of the worker
-            let evs = run_case(if cases[k].huge { port2 } else { port }, k, &cases[k], &files, &mut rng);
+            let evs = if cases[k].numeric {
+                let slot = k % NUM_SERVERS;
+                let mut g = numsrvs[slot].lock().unwrap();
+                let gen = g.as_ref().map(|x| x.1).unwrap_or(0);
+                if g.as_mut().map(|x| x.0.exited().is_some()).unwrap_or(true) {
+                    *g = Some((Server::start(&adlt, &work, &format!("c15-numeric-{}-{}", slot, gen + 1), thr.as_deref()), gen + 1));
+                }
+                let sv = &mut g.as_mut().unwrap().0;
+                let mut evs = run_case(sv.port, k, &cases[k], &files, &mut rng);
+                std::thread::sleep(Duration::from_millis(20));
+                if let Some(st) = sv.exited() {
+                    // the server PROCESS died during this session
+                    let end = evs.pop();
+                    evs.push(json!({"ev":"server_exit","status":st}));
+                    evs.extend(end);
+                }
+                let pl = sv.panic_lines();
+                if !pl.is_empty() {
+                    let mut np = num_panics.lock().unwrap();
+                    for p in pl {
+                        if let Some(e) = np.iter_mut().find(|e| e.0 == p.0) { e.1 = std::cmp::max(e.1, p.1); } else { np.push(p); }
+                    }
+                }
+                evs
+            } else {
+                run_case(if cases[k].huge { port2 } else { port }, k, &cases[k], &files, &mut rng)
+            };
             results.lock().unwrap().push((k, evs));
         }));
     }
@@ -785,7 +901,7 @@ fn main() {
         Some(st) => t.ev(json!({"ev":"server_exit","status":st})),
         None => {
             // still serving: a fresh connection gets an answer
-            let evs = run_case(port, n, &CaseSpec { src: "server", mode: "awaited", big: false, huge: false, steps: vec![step("fs", "stat_ok", "")] }, &files, &mut Rng::new(seed));
+            let evs = run_case(port, n, &CaseSpec { src: "server", mode: "awaited", big: false, huge: false, numeric: false, steps: vec![step("fs", "stat_ok", "")] }, &files, &mut Rng::new(seed));
             for e in evs.into_iter().skip(1) {
                 t.ev(e);
             }
@@ -798,6 +914,12 @@ fn main() {
         panics.extend(s2.panic_lines());
         s2.stop();
     }
+    for m in numsrvs.iter() {
+        if let Some((sv, _)) = m.lock().unwrap().as_mut() {
+            sv.stop();
+        }
+    }
+    panics.extend(num_panics.lock().unwrap().iter().cloned());
     println!("{}", json!({"cases": n + 1, "lines": t.lines, "cmds": cmds, "conn_closed": closed, "drift": drift,
         "server_exit": exited, "panics": panics.iter().map(|p| json!({"where": p.0, "count": p.1})).collect::<Vec<_>>(),
         "stderr": server.stderr_path}));
